@@ -9,6 +9,7 @@
  *       bits2-3 program kind (0 rule on target, 1 opcode without native rule, 2 register exhaustion,
  *                3 recompile history: compiled natively, recompiled for a target without a rule, chunk reused by another program),
  *       bit4 hold: programs and their code stay alive until the end (code memory has to grow by new regions)
+ *       bit5 2-D: the program is two-dimensional (3 rows, stride 128 bytes)
  *       reps (number of compile/run repetitions)
  * Prints one JSON line.
  */
@@ -113,7 +114,7 @@ static OrcProgram *make_program (int kind)
 int main (int argc, char **argv)
 {
   int variant = argc > 1 ? atoi (argv[1]) : 0, reps = argc > 2 ? atoi (argv[2]) : 1, r;
-  int with_backup = variant & 1, code_only = (variant >> 1) & 1, kind = (variant >> 2) & 3, hold = (variant >> 4) & 1, nheld = 0, held_reruns = 0;
+  int with_backup = variant & 1, code_only = (variant >> 1) & 1, kind = (variant >> 2) & 3, hold = (variant >> 4) & 1, twod = (variant >> 5) & 1, nheld = 0, held_reruns = 0;
   static OrcProgram *held_p[MAXHELD]; static OrcCode *held_c[MAXHELD];
   const char *plan = getenv ("FAULT_PLAN");
   int calls_after_init, fds0 = -1, fds_early = -1, fds_end = -1, mismatches = 0, native_runs = 0, backup_bad = 0, emu_runs = 0, no_orccode = 0;
@@ -130,8 +131,9 @@ int main (int argc, char **argv)
   fds0 = count_fds ();
   for (r = 0; r < reps; r++) {
     OrcProgram *p = make_program (kind), *q = NULL; OrcCompileResult res; OrcExecutor *ex; OrcCode *code = NULL;
-    static short a[64] __attribute__ ((aligned (16))), b[64] __attribute__ ((aligned (16))), dn[64] __attribute__ ((aligned (16))), de[64] __attribute__ ((aligned (16)));
+    static short a[256] __attribute__ ((aligned (16))), b[256] __attribute__ ((aligned (16))), dn[256] __attribute__ ((aligned (16))), de[256] __attribute__ ((aligned (16)));
     int i, before, n = kind == 3 ? 12 : 50;
+    if (twod) orc_program_set_2d (p);
     if (with_backup) orc_program_set_backup_function (p, backup_fn);
     res = orc_program_compile (p);
     if (kind == 3) {
@@ -146,17 +148,23 @@ int main (int argc, char **argv)
     }
     results[ORC_COMPILE_RESULT_IS_SUCCESSFUL (res) ? 0 : ORC_COMPILE_RESULT_IS_FATAL (res) ? 2 : 1]++;
     if (ORC_COMPILE_RESULT_IS_FATAL (res) || !p->orccode) { no_orccode++; orc_program_free (p); if (q) orc_program_free (q); continue; }
-    for (i = 0; i < 64; i++) { a[i] = (short) (i * 517 - 9000 + r); b[i] = (short) (i * 33 + 5); dn[i] = de[i] = 0x1111; }
+    for (i = 0; i < 256; i++) { a[i] = (short) (i * 517 - 9000 + r); b[i] = (short) (i * 33 + 5); dn[i] = de[i] = 0x1111; }
     ex = orc_executor_new (p);
     orc_executor_set_n (ex, n); orc_executor_set_array (ex, ORC_VAR_S1, a); orc_executor_set_array (ex, ORC_VAR_S2, b);
+    if (twod) { orc_executor_set_m (ex, 3); orc_executor_set_stride (ex, ORC_VAR_S1, 128); orc_executor_set_stride (ex, ORC_VAR_S2, 128); orc_executor_set_stride (ex, ORC_VAR_D1, 128); }
     orc_executor_set_array (ex, ORC_VAR_D1, de);
     orc_executor_emulate (ex);
+    if (twod) {
+      /* the emulation used as the oracle must itself have covered the three rows (d = a + b for kinds 0 and 3 is easy to predict) */
+      if (kind == 0) for (i = 0; i < 3; i++) if (de[i * 64 + 7] != (short) (a[i * 64 + 7] + b[i * 64 + 7])) { mismatches++; break; }
+    }
     orc_executor_set_array (ex, ORC_VAR_D1, dn);
     before = backup_calls;
     if (code_only) {
       OrcExecutor ex2;
       code = orc_program_take_code (p);
       memset (&ex2, 0, sizeof ex2); ex2.n = n; ex2.arrays[ORC_VAR_A2] = code; ex2.arrays[ORC_VAR_D1] = dn; ex2.arrays[ORC_VAR_S1] = a; ex2.arrays[ORC_VAR_S2] = b;
+      if (twod) { ex2.params[ORC_VAR_A1] = 3; ex2.params[ORC_VAR_D1] = ex2.params[ORC_VAR_S1] = ex2.params[ORC_VAR_S2] = 128; }
       orc_executor_run (&ex2);
     } else orc_executor_run (ex);
     if (backup_calls != before) {
